@@ -686,3 +686,34 @@ free piece:
 +--------+-------+-------------+-----------------------------------+
 ```
 */
+
+// verification probe: the constants and the sizing code of this file, without I/O.
+#[cfg(abyssiniandb_verif)]
+pub(crate) mod verif {
+    use super::super::super::DbBytes;
+    use super::*;
+    pub fn consts() -> String {
+        format!(
+            "key_header_size {}\nkey_signature {:?}\nkey_chunk_size {}\nkey_size_ary {:?}\nkey_free_offset {:?}\n",
+            DAT_HEADER_SZ, DAT_HEADER_SIGNATURE, CHUNK_SIZE, REC_SIZE_ARY, REC_SIZE_FREE_OFFSET
+        )
+    }
+    /// (encoded size field length, piece length, rounded slot size) for every pair of `offs`.
+    pub fn sizing(klen: u32, offs: &[u64], f: &mut dyn FnMut(u64, u64, u32, u32, u32)) {
+        let mgr = PieceMgr::new(&REC_SIZE_FREE_OFFSET, &REC_SIZE_ARY);
+        let mut piece = KeyPiece::<DbBytes>::with_key_value_next(
+            DbBytes::from(vec![0u8; klen as usize]),
+            ValuePieceOffset::new(0),
+            KeyPieceOffset::new(0),
+        );
+        for &vo in offs {
+            for &no in offs {
+                piece.value_offset = ValuePieceOffset::new(vo);
+                piece.bucket_next_offset = KeyPieceOffset::new(no);
+                let (epl, pl, _) = piece.encoded_piece_size();
+                let sz = mgr.roundup(KeyPieceSize::new(epl + pl));
+                f(vo, no, epl, pl, sz.as_value());
+            }
+        }
+    }
+}
